@@ -970,8 +970,8 @@ func (k *checker) compileTable(specs []cfgSpec) {
 func TestCheck(t *testing.T) {
 	r := runner.Start("C11", "exploration")
 	if pf := os.Getenv("C11_PROF"); pf != "" { // TEMP-PROF
-		f, _ := os.Create(pf) // TEMP-PROF
-		pprof.StartCPUProfile(f) // TEMP-PROF
+		f, _ := os.Create(pf)        // TEMP-PROF
+		pprof.StartCPUProfile(f)     // TEMP-PROF
 		defer pprof.StopCPUProfile() // TEMP-PROF
 	} // TEMP-PROF
 	k := &checker{r: r, stats: map[string]int64{}, once: map[string]bool{}, deadline: r.Deadline(60*time.Second, 10*time.Minute)}
